@@ -354,7 +354,16 @@ func lookupViews(reg lint.Registry, probe []string) string {
 		if b := strings.Join(viaSource, ","); b != strings.Join(listing, ",") {
 			a += "!bySource=" + b
 		}
-		return a
+		// the kind's own source list: exactly the sources its lints have
+		var ss []string
+		for _, s := range sources {
+			ss = append(ss, string(s))
+		}
+		sort.Strings(ss)
+		if len(ss) == 0 {
+			return a + "|src=-"
+		}
+		return a + "|src=" + strings.Join(ss, ",")
 	}
 	cl, rl, ol := reg.CertificateLints(), reg.RevocationListLints(), reg.OcspResponseLints()
 	var cn, rn, on []string
